@@ -1,1 +1,148 @@
-PARTS = []
+"""C04 parts d (Chunking), e (pipeline sweeps against Cooc.tla), f2 (periodic corpora at the production threshold)."""
+import random
+
+from .. import cooc_cfg, cooc_gen, tlc
+from ..common import MachineryError, pool_map
+
+
+def part_d(ctx):
+    r = tlc.run_tlc("Chunking", dict(MaxDocs=ctx.pick(5, 6), MaxSize=3, MaxThreads=ctx.pick(6, 8), EMIT=False),
+                    invariants=["Partition", "Covered", "LoopInv"], workers=8, timeout=1800)
+    ctx.add_tlc(r, "Chunking exhaustive")
+    ctx.tlc_violation(r, "Chunking exhaustive")
+    r = tlc.run_tlc("Chunking", dict(MaxDocs=4, MaxSize=3, MaxThreads=5, EMIT=True),
+                    invariants=["Partition", "Covered", "EmitInv"], workers=1, timeout=1800)
+    ctx.add_tlc(r, "Chunking emit")
+    items = list(r.prints)
+    if len(items) < 100:
+        raise MachineryError("Chunking emitted too few instances")
+    rng = random.Random(ctx.seed)
+    if ctx.quick and len(items) > 1200:
+        items = rng.sample(items, 1200)
+    items = [dict(it, family=f) for it in items for f in ("token", "multi")]
+    res = pool_map("cooc", "chunks", items, nproc=4, min_chunk=200)
+    for it, rr in zip(items, res):
+        ctx.evaluations += 1
+        ctx.traces += 1
+        ctx.count("d_chunking")
+        if len(it["chunks"]) > 1:
+            ctx.nontriv({"s": it["sizes"], "n": it["n"], "f": it["family"]})
+        if rr is None or "crash" in rr or "exc" in rr or not rr["ok"]:
+            ctx.violation({"part": "d", "kind": "chunk-boundaries", "sizes": it["sizes"], "n": it["n"],
+                           "family": it["family"]}, {"item": it, "result": rr})
+    ctx.sample({"part": "d", "sizes": items[7]["sizes"], "n_threads": items[7]["n"], "chunks": items[7]["chunks"]})
+
+
+SETTINGS_Q = [dict(n_threads=1, coo_initial_memory="1k"), dict(n_threads=2, coo_initial_memory="1k"),
+              dict(n_threads=3, coo_initial_memory="4k"), dict(n_threads=5, coo_initial_memory="1M"),
+              dict(n_threads=16, coo_initial_memory="1k")]
+SETTINGS_T = SETTINGS_Q + [dict(n_threads=2, coo_initial_memory="4k"), dict(n_threads=3, coo_initial_memory="1k"),
+                           dict(n_threads=7, coo_initial_memory="2k"), dict(n_threads=1, coo_initial_memory="1G")]
+
+
+def _corpora(ctx, fam, n):
+    """instances beyond the exhaustive bounds of C03: TLC -simulate walks (V=3..4, several documents)"""
+    seed = ctx.seed * 7 + len(fam)
+    if fam == "token":
+        cfgs = cooc_cfg.wide_cfgs(4, seed, 6) + cooc_cfg.quick_cfgs()[::6]
+        return cooc_gen.emit(ctx, 4, 8, 3, cfgs, "Cooc simulate V=4", simulate="num=%d" % n, depth=30, seed=seed, shards=4)
+    if fam == "timed":
+        cfgs = cooc_cfg.timed_cfgs(3, seed, 8)
+        return cooc_gen.emit(ctx, 3, 7, 3, cfgs, "Cooc timed simulate V=3", simulate="num=%d" % n, depth=26, seed=seed,
+                             shards=4, extra_constants=dict(TIMED=True, Gaps=tlc.TLAExpr("{0,1,3}")))
+    if fam == "multi":
+        cfgs = cooc_cfg.multi_cfgs(3, seed, 10)
+        return cooc_gen.emit(ctx, 3, 1, 1, cfgs, "CoocMulti simulate V=3", module="CoocMulti", simulate="num=%d" % n,
+                             depth=26, seed=seed, shards=4,
+                             invariants=["Refines", "WindowMassOne"],
+                             extra_constants=dict(MaxSet=3, MaxSets=4, MaxDocs=3))
+    cfgs = [c for c in cooc_cfg.wide_cfgs(3, seed, 30) if not any(w["table"] for w in c["wins"])][:6]
+    items = cooc_gen.emit(ctx, 3, 7, 2, cfgs, "CoocNgram simulate V=3", module="CoocNgram", simulate="num=%d" % n,
+                          depth=20, seed=seed, shards=4, invariants=["Refines", "WindowMassOne"],
+                          extra_constants=dict(N=2, MaxLen=7, MaxDocs=2))
+    for it in items:
+        it["N"] = 2
+    return items
+
+
+def part_e(ctx):
+    rng = random.Random(ctx.seed + 31)
+    settings = ctx.pick(SETTINGS_Q, SETTINGS_T)
+    per_fam = ctx.pick({"token": 40, "timed": 24, "multi": 24, "ngram": 8}, {"token": 300, "timed": 150, "multi": 150, "ngram": 40})
+    jobs = []
+    for fam, n in per_fam.items():
+        insts = _corpora(ctx, fam, max(20, n // 4))
+        # de-duplicate and keep the heavier ones (more events -> more buffer traffic)
+        seen, uniq = set(), []
+        for it in sorted(insts, key=lambda i: -len(i["cells"])):
+            k = (str(it["corpus"]), it["ci"], str(it.get("times")))
+            if k not in seen:
+                seen.add(k)
+                uniq.append(it)
+        uniq = uniq[: n]
+        ctx.log("pipeline corpora", fam, len(uniq))
+        for it in uniq:
+            it["family"] = fam
+            for st in settings:
+                jobs.append(dict(it, extra=st, modes=["ft", "small_t"] if fam != "ngram" else ["ft"]))
+    ctx.exhaustive = False
+    for limit in ctx.pick([4, 64, None], [3, 4, 16, 64, None]):
+        env = {"VECTORIZERS_VERIF": "1", "VECTORIZERS_VERIF_COO_LIMIT": limit} if limit else {"VECTORIZERS_VERIF": "0"}
+        env["NUMBA_NUM_THREADS"] = rng.choice(["1", "4", "16"])
+        sub = jobs if not ctx.quick else rng.sample(jobs, min(len(jobs), 260))
+        res = pool_map("cooc", "run", sub, env=env, min_chunk=6, timeout=3000)
+        nbad = 0
+        for it, r in zip(sub, res):
+            ctx.evaluations += 1
+            ctx.traces += 1
+            ctx.count("e_pipeline_runs")
+            ctx.nontriv({"c": it["corpus"], "ci": it["ci"], "x": it["extra"], "l": limit, "f": it["family"]})
+            ident = {"part": "e", "family": it["family"], "limit": limit, "setting": it["extra"],
+                     "cfg": cooc_cfg.describe(it["cfg"]), "corpus": it["corpus"]}
+            if r is None or "crash" in r:
+                nbad += ctx.violation(dict(ident, kind="abnormal-termination"), {"item": it, "result": r})
+            elif "exc" in r:
+                nbad += ctx.violation(dict(ident, kind="exception", exc=r["exc"]), {"item": it, "result": r})
+            elif not r["ok"]:
+                nbad += ctx.violation(dict(ident, kind="mismatch", modes=[f.get("mode") for f in r["fails"]]),
+                                      {"item": it, "result": r})
+        ctx.log("pipeline sweep LIMIT=%s runs=%d bad=%d" % (limit, len(sub), nbad))
+    if jobs:
+        j = jobs[len(jobs) // 2]
+        ctx.sample({"part": "e", "family": j["family"], "corpus": j["corpus"], "setting": j["extra"],
+                    "cfg": cooc_cfg.describe(j["cfg"])})
+
+
+def part_f(ctx):
+    """production thresholds (no hook): periodic corpora, millions of events, oracle = closed form checked by TLC"""
+    big = ctx.pick([dict(L=300000, V=5, R=5, D=2), dict(L=140000, V=30000, R=3, D=1)],
+                   [dict(L=400000, V=5, R=5, D=3), dict(L=300000, V=40000, R=4, D=1), dict(L=250000, V=1000, R=5, D=2),
+                    dict(L=200000, V=70000, R=2, D=2)])
+    r = tlc.run_tlc("CoocAtScale", dict(MaxL=ctx.pick(12, 16), MaxV=4, MaxR=4, Big=big),
+                    invariants=["ClosedFormOK", "TotalOK", "EmitBig"], workers=1, timeout=3000, heap="8g")
+    ctx.add_tlc(r, "CoocAtScale closed form = brute force")
+    if ctx.tlc_violation(r, "CoocAtScale"):
+        return
+    if len(r.prints) != len(big):
+        raise MachineryError("CoocAtScale did not emit the big instances")
+    jobs = []
+    for p in r.prints:
+        for mem, nt in ctx.pick([("1M", 1), ("4M", 2)], [("1M", 1), ("4M", 2), ("1G", 1), ("2M", 3)]):
+            jobs.append(dict(p, mem=mem, nt=nt))
+    res = pool_map("cooc", "scale", jobs, env={"VECTORIZERS_VERIF": "0"}, min_chunk=1, timeout=3000)
+    for j, rr in zip(jobs, res):
+        ctx.evaluations += 1
+        ctx.traces += 1
+        ctx.count("f_scale_runs")
+        small = {k: j[k] for k in ("l", "v", "r", "d", "mem", "nt", "events")}
+        if rr is None or "crash" in rr or "exc" in rr or not rr.get("ok"):
+            ctx.violation({"part": "f", "kind": "scale-mismatch", "run": small},
+                          {"run": small, "result": rr if rr is None else {k: v for k, v in rr.items()}})
+        else:
+            if rr["limit"] != 65536:
+                raise MachineryError("scale run did not use the production threshold")
+            ctx.nontriv(small)
+            ctx.sample({"part": "f", "run": small, "cells_checked": rr["cells_checked"], "coo_sizes": rr["coo_sizes"]}, limit=6)
+
+
+PARTS = [("d", part_d), ("e", part_e), ("f", part_f)]
